@@ -5,6 +5,8 @@
 
 #include <usual/mbuf.h>
 
+#include <limits.h>
+
 bool mbuf_make_room(struct MBuf *buf, unsigned len)
 {
 	unsigned new_alloc = buf->alloc_len;
@@ -15,15 +17,22 @@ bool mbuf_make_room(struct MBuf *buf, unsigned len)
 		return false;
 
 	/* maybe there is enough room already */
-	if (buf->write_pos + len <= buf->alloc_len)
+	if (len <= mbuf_avail_for_write(buf))
 		return true;
+
+	/* total size must fit into unsigned */
+	if (len > UINT_MAX - buf->write_pos)
+		return false;
 
 	if (new_alloc == 0)
 		new_alloc = 128;
 
 	/* calc new alloc size */
-	while (new_alloc < buf->write_pos + len)
+	while (new_alloc < buf->write_pos + len) {
+		if (new_alloc > UINT_MAX / 2)
+			return false;
 		new_alloc *= 2;
+	}
 
 	/* realloc */
 	ptr = realloc(buf->data, new_alloc);
